@@ -441,6 +441,32 @@ pub fn run(p: &Params) -> Outcome {
                 }
             }
 
+            // long strings in which a multi-byte character straddles every power-of-two byte offset from 2^10 to 2^18 (decoders
+            // that work in blocks have seams there), and the same strings nested in a sequence
+            if i == 0 && shard == 0 {
+                let top: u32 = if scale == "miri" { 12 } else { 18 };
+                for p in 10..=top {
+                    let boundary = 1usize << p;
+                    for (ch, width) in [("\u{e9}", 2usize), ("\u{20ac}", 3), ("\u{1F600}", 4)] {
+                        for before in 1..width {
+                            // the character starts `before` bytes ahead of the boundary
+                            let mut s = String::with_capacity(boundary + 16);
+                            s.push_str(&"a".repeat(boundary - before));
+                            s.push_str(ch);
+                            s.push_str("tail");
+                            let expected = refmodel::encode(&Ty::Str, &Val::Str(s.clone())).unwrap();
+                            roundtrip!(&mut out, "String@seam", String, s, &expected, |e| e.encode(&s));
+                            if p <= 16 {
+                                let v: Vec<String> = vec!["x".to_owned(), s.clone(), "\u{1F600}".to_owned()];
+                                let expected = refmodel::encode(&Ty::Seq(Box::new(Ty::Str)), &v.to_val()).unwrap();
+                                roundtrip!(&mut out, "Vec<String>@seam", Vec<String>, v, &expected, |e| e.encode(&v));
+                            }
+                            out.count("seam_strings", 1);
+                        }
+                    }
+                }
+            }
+
             macro_rules! coll {
                 ($name:expr, $t:ty, $refty:expr, $build:expr) => {{
                     let refty: Ty = $refty;
